@@ -151,6 +151,16 @@ def body_width(case):
         wsup = float(dreye.compute_mean_width(np.vstack([X, extra[None, :]]), n=n, seed=seed))
     diam = float(np.max(np.linalg.norm(X[:, None, :] - X[None, :, :], axis=-1)))
     scale = diam + 1e-300
+    # the options are implementation choices (loop / vectorised, centring the data first): all four combinations give the same
+    # number for the same seed, also for the shifted cloud; one case in eight uses many directions (n * points > 2**20)
+    n_opt = n if seed % 8 else int(2 ** 20 // X.shape[0]) + 1500
+    with calling(f"compute_mean_width (options, n={n_opt})"):
+        combos = {(v, c): float(dreye.compute_mean_width(X + np.asarray(case["shift"]), n=n_opt, seed=seed, vectorized=v, center=c))
+                  for v in ((False, True) if n_opt == n else (True,)) for c in (False, True)}
+        ref_opt = float(dreye.compute_mean_width(X, n=n_opt, seed=seed, vectorized=True))
+    for (v, c), val in combos.items():
+        check(abs(val - ref_opt) <= 1e-9 * (scale + np.max(np.abs(case["shift"]))), "width:option-dependence",
+              f"compute_mean_width(vectorized={v}, center={c}, n={n_opt}) of the shifted cloud = {val}, of the cloud = {ref_opt}")
     check(w1 == w2, "width:not-deterministic", f"same seed gives {w1} and {w2}")
     check(abs(w1 - wv) <= 1e-12 * scale, "width:vectorized-differs", f"vectorized {wv} vs loop {w1}")
     check(abs(w1 - wt) <= 1e-9 * (scale + np.max(np.abs(case["shift"]))), "width:translation", f"{w1} -> {wt} under translation (same seed)")
@@ -159,7 +169,7 @@ def body_width(case):
     se = diam / (2 * math.sqrt(n))
     check(abs(wr - w1) <= 2 * 6.5 * se, "width:rotation", f"width changes under rotation beyond the Monte-Carlo bound: {w1} -> {wr} (bound {2 * 6.5 * se:.3g})")
     check(0 <= w1 <= diam * (1 + 1e-12), "width:range", f"mean width {w1} outside [0, diameter {diam}]")
-    labs = [f"d{d}", f"r{r}", "nt:width-relations"]
+    labs = [f"d{d}", f"r{r}", "nt:width-relations"] + (["many-directions"] if n_opt != n else [])
     if d == 2 and r == 2:
         ex = exact_mean_width(Y, case["kind"])
         check(abs(w1 - ex) <= 6.5 * se, "width:value-2d", f"mean width {w1} but perimeter/pi = {ex} (Monte-Carlo bound {6.5 * se:.3g})")
